@@ -3,14 +3,15 @@ SPEC = {
     "id": "C14",
     "coq_targets": ["theories/Scmp/Props.vo", "theories/Scmp/Findings.vo", "theories/Scmp/Cases.vo"],
     "props": "theories/Scmp/Props.v",
-    "harness": [{"bin": "h_scmp", "n": {"quick": 560, "thorough": 12000},
+    "harness": [{"bin": "h_scmp", "n": {"quick": 560, "thorough": 8000},
                  "known_bits": {16: "C14-bad-checksum-echo-answered",
                                 32: "C14-checksum-omits-message",
                                 64: "C14-unknown-error-type-answered",
                                 128: "C14-gateway-answers-scmp-error",
                                 256: "C14-unknown-error-type-not-reported"}}],
     "rule": "direct layout calls (n, h boundary-directed around 1232 - h - HEADER, h up to 2^40); SCMP errors of all five kinds through ScionScmpPacket::try_encode_to_vec over every address/path combination with offending packets 0..9216 B placed around the truncation point; the SNAP gateway's create_scmp_error on inbound datagrams failing its check; DefaultEchoHandler on hand-built received packets (every SCMP type/code, truncations, wrong checksums, error quoting an error, odd addresses/paths, non-SCMP); pocketscion's local simulator with every error kind, local dispatch, and its router answering echo/traceroute requests (handle_scmp); the socket receive loop with the real ScmpErrorHandler on mixed UDP/SCMP streams. Distinct by full case text; every case is non-trivial (it runs the implementation).",
-    "assumptions": ["the structural path handed to the echo-handler model is the implementation's own path().to_model() (view/model agreement is C12's subject)",
+    "assumptions": ["the structural path handed to the echo-handler model is the implementation's own path().to_model(), cross-checked per case against Wire.Codec.decode_header (view/model agreement is C12's subject)",
+                    "received packets are decodable raw packets (bytes < 256, ScionRawPacketView::try_from_slice accepts the buffer): what the underlay guarantees to the socket",
                     "checksum VALUE of built packets is C03's theorem; here it is judged on the implementation's output by two independent RFC 1071 implementations (Rust harness, Coq Spec)"],
 }
 def main(argv): vlib.standard_main(SPEC, argv)
